@@ -392,7 +392,7 @@ func init() {
 					key := fnName(fn) + "/read-end"
 					end := stripConv(call.Call.Args[2])
 					start := stripConv(call.Call.Args[1])
-					if x, k, ok := addConst(end); ok && k != 8 && stripConv(x) == start {
+					if x, k, ok := addConst(end); ok && k != 8 && (stripConv(x) == start || exprSig(x, 0) == exprSig(start, 0)) {
 						r.bad(key, fnName(fn), c.pos(call.Pos()), fmt.Sprintf("fixed %d-byte look-ahead in the last section of the file: for file-backed data the window can extend past the end (short final records) and the read fails with EOF", k))
 						continue
 					}
